@@ -1585,10 +1585,22 @@ func (p *Posix) CompleteMultipartUpload(ctx context.Context, input *s3.CompleteM
 	d, err := os.Stat(objname)
 
 	// if the versioninng is enabled first create the file object version
-	if p.versioningEnabled() && vEnabled && err == nil && !d.IsDir() {
-		_, err := p.createObjVersion(bucket, object, d.Size(), acct)
-		if err != nil {
-			return nil, fmt.Errorf("create object version: %w", err)
+	if p.versioningEnabled() && vStatus != "" && err == nil && !d.IsDir() {
+		// with suspended versioning only a current version that
+		// has an id is kept, the null version is replaced
+		var isVersionIdMissing bool
+		if p.isBucketVersioningSuspended(vStatus) {
+			vIdBytes, err := p.meta.RetrieveAttribute(nil, bucket, object, versionIdKey)
+			if err != nil && !errors.Is(err, meta.ErrNoSuchKey) {
+				return nil, fmt.Errorf("get object versionId: %w", err)
+			}
+			isVersionIdMissing = len(vIdBytes) == 0
+		}
+		if !isVersionIdMissing {
+			_, err := p.createObjVersion(bucket, object, d.Size(), acct)
+			if err != nil {
+				return nil, fmt.Errorf("create object version: %w", err)
+			}
 		}
 	}
 
@@ -1600,6 +1612,15 @@ func (p *Posix) CompleteMultipartUpload(ctx context.Context, input *s3.CompleteM
 		err := p.meta.StoreAttribute(f.File(), bucket, object, versionIdKey, []byte(versionID))
 		if err != nil {
 			return nil, fmt.Errorf("set versionId attr: %w", err)
+		}
+	}
+
+	// the completed object becomes the null version: remove a null
+	// version kept in the versioning directory
+	if p.versioningEnabled() && p.isBucketVersioningSuspended(vStatus) {
+		err := p.deleteNullVersionIdObject(bucket, object)
+		if err != nil {
+			return nil, err
 		}
 	}
 
